@@ -253,12 +253,9 @@ Definition ranked (l : lock) : Prop := rank l <> None.
 
 (* ---------- known violation sites of the pinned tree (each confirmed by reading the source) ---------- *)
 Definition known_sites : list string :=
-  [ (* network.rs: the peers write guard of Network::handle_handshake_challenge / handle_handshake_response
-       is alive while Peer::handle_handshake_{challenge,response} read the configuration.
-       (the third site of this group, handle_handshake_response#c13 -- request_blockchain_from_peer under
-       the peers guard -- was repaired in /repo by fix 49f9179 and is no longer listed) *)
-    "saito_core::network::Network::handle_handshake_challenge#c3";
-    "saito_core::network::Network::handle_handshake_response#c3";
+  [ (* (the three saito-core sites of the pinned tree -- Network::handle_handshake_challenge#c3,
+       handle_handshake_response#c3 and #c13: configuration / blockchain taken under the peers write guard --
+       were repaired in /repo by fixes 49f9179 and dd4b06d and are no longer listed) *)
     (* saito-rust main.rs: three `configs_clone.read().await...` temporaries in the argument list of one
        Context::new(..) statement: the 2nd and 3rd read are taken while the earlier read guards are alive *)
     "saito_rust::main::run_utxo_to_issuance_converter#2";
@@ -279,6 +276,66 @@ Definition excerpt : graph :=
       [Acq LPeers Write "hr#0"; Call "hr#c0" [2%positive]; Rel LPeers];
     mkFn 2 "Network::request_blockchain_from_peer" Core Plain
       [Acq LCfg Read "rb#0"; Acq LBlockchain Read "rb#1"; Rel LBlockchain; Rel LCfg] ]%string.
+
+(* ---------- human-readable report of the violations that [check] does not accept ----------
+   (printed by props/C20.v between markers and copied by bin/check into the replay file; not used by [check]
+   or by any theorem) *)
+Definition show_lock (l : lock) : string :=
+  match l with
+  | LCfg => "configuration" | LBlockchain => "blockchain" | LMempool => "mempool" | LPeers => "peers"
+  | LWallet => "wallet" | LSaito => "SAITO" | LOther n => n
+  end.
+
+(* one call chain from function c down to an acquisition of l: the functions entered, then the site *)
+Fixpoint witness (fuel : nat) (s : summ) (g : graph) (c : positive) (l : lock) : list string :=
+  match fuel with
+  | O => ["..."%string]
+  | S n =>
+      match find_fn g c with
+      | None => []
+      | Some f =>
+          f_name f ::
+          (fix go (es : list event) : list string :=
+             match es with
+             | [] => []
+             | Acq l' _ site :: t => if lock_eqb l l' then [("acquisition " ++ site)%string] else go t
+             | Call _ cs :: t =>
+                 match find (fun c' => mem l (sget s c')) cs with
+                 | Some c' => witness n s g c' l
+                 | None => go t
+                 end
+             | _ :: t => go t
+             end) (f_body f)
+      end
+  end.
+
+Definition explain_ev (known : list string) (ag : bool) (s : summ) (g : graph) (held : list lock) (e : event)
+  : list string :=
+  let rejected site := negb (in_known known site || (mem LSaito held && ag)) in
+  let line site h l how :=
+    (site ++ " : holds " ++ show_lock h ++ ", then acquires " ++ show_lock l ++ " " ++ how)%string in
+  match e with
+  | Acq l _ site =>
+      if rejected site then map (fun h => line site h l "directly"%string) (filter (fun h => bad h l) held) else []
+  | Call site cs =>
+      if rejected site then
+        flat_map (fun c => flat_map (fun l =>
+          map (fun h => line site h l ("via " ++ String.concat " -> " (witness 64 s g c l))%string)
+              (filter (fun h => bad h l) held)) (sget s c)) cs
+      else []
+  | Rel _ | Hold _ => []
+  end.
+
+Fixpoint explain_scan known ag s g (held : list lock) (es : list event) : list string :=
+  match es with
+  | [] => []
+  | e :: t => explain_ev known ag s g held e ++ explain_scan known ag s g (upd held e) t
+  end.
+
+Definition explain (g : graph) (known : list string) : list string :=
+  let s := summaries g in
+  let ag := all_gated_with s g in
+  flat_map (fun f => explain_scan known ag s g [] (f_body f)) g.
 
 (* ---------- statistics printed by props/C20.v ---------- *)
 Definition count_acq (g : graph) : N :=
